@@ -268,6 +268,21 @@ func c05ExecStr(c c05Str) kit.Outcome {
 			return o
 		}
 		if !specified {
+			// 'N' next to other letters: the statement does not say whether that is an error, but a set
+			// has one meaning whatever the order of its letters ("one canonical text form ... letters in
+			// any case"): the same letters in reverse order get the same treatment
+			if kind == "assign" && !strings.ContainsAny(c.S, "+-") {
+				rev := []byte(c.S)
+				for i, j := 0, len(rev)-1; i < j; i, j = i+1, j-1 {
+					rev[i], rev[j] = rev[j], rev[i]
+				}
+				got2 := AccessMode(c.Start)
+				err2 := f.f(&got2, string(rev))
+				if (err == nil) != (err2 == nil) || (err == nil && got != got2) {
+					o.Viol = kit.V("order-of-letters-matters:"+f.name, "%s(%q) on %v = %v, %v but %s(%q) = %v, %v: the same letters in another order", f.name, c.S, AccessMode(c.Start), got, err, f.name, string(rev), got2, err2)
+					return o
+				}
+			}
 			continue
 		}
 		if wantErr && err == nil {
